@@ -22,9 +22,9 @@ example : expectVars demo =
        [("scale".toList, .many [.int 7, .int 1, .int 2])]⟩,
      ⟨"after".toList, "after".toList, none, ">u2".toList, [], [], [], []⟩] := by decide
 theorem demo_ok : demo.ok := by
-  have hx : plainName "x".toList := ⟨by decide, by decide⟩
-  have hg : plainName "g".toList := ⟨by decide, by decide⟩
-  have ha : plainName "after".toList := ⟨by decide, by decide⟩
+  have hx : goodName "x".toList := ⟨by decide, by decide, by decide, by decide⟩
+  have hg : goodName "g".toList := ⟨by decide, by decide, by decide, by decide⟩
+  have ha : goodName "after".toList := ⟨by decide, by decide, by decide, by decide⟩
   have hattr : SAttr.ok ⟨"scale".toList, "UInt8".toList, some (.int "007".toList 7),
       [(true, .int "1".toList 1), (false, .int "2".toList 2)]⟩ := by
     refine Or.inr (Or.inl ⟨by decide, by decide, ?_⟩)
@@ -35,7 +35,7 @@ theorem demo_ok : demo.ok := by
     · exact ⟨_, _, rfl, by rfl⟩
     · exact ⟨_, _, rfl, by rfl⟩
     · exact ⟨_, _, rfl, by rfl⟩
-  refine ⟨hx, ⟨by decide, hx, by simp, by simp⟩, hg, ⟨hx, ⟨by decide, hx, ?_, by simp⟩, trivial⟩,
+  refine ⟨⟨hx.1, hx.2.1⟩, ⟨by decide, hx, by simp, by simp⟩, hg, ⟨⟨hx.1, hx.2.1⟩, ⟨by decide, hx, ?_, by simp⟩, trivial⟩,
     ⟨by decide, ha, by simp, by simp⟩, trivial⟩
   intro a hm
   simp only [List.mem_cons, List.not_mem_nil, or_false] at hm
@@ -62,9 +62,9 @@ def tiny : Spec :=
     (.group "g".toList (.var ⟨"Int16".toList, "b".toList, [.anon 2], [], []⟩ .nil) .nil)
 
 theorem tiny_ok : tiny.ok := by
-  have ha : plainName "a".toList := ⟨by decide, by decide⟩
-  have hb : plainName "b".toList := ⟨by decide, by decide⟩
-  have hg : plainName "g".toList := ⟨by decide, by decide⟩
+  have ha : goodName "a".toList := ⟨by decide, by decide, by decide, by decide⟩
+  have hb : goodName "b".toList := ⟨by decide, by decide, by decide, by decide⟩
+  have hg : goodName "g".toList := ⟨by decide, by decide, by decide, by decide⟩
   exact ⟨⟨by decide, ha, by simp, by simp⟩, hg, ⟨⟨by decide, hb, by simp, by simp⟩, trivial⟩, trivial⟩
 
 theorem tiny_refs : refsResolve tiny := by
@@ -73,5 +73,39 @@ theorem tiny_refs : refsResolve tiny := by
   rcases hpv with rfl | rfl
   · cases hm
   · simp at hm
+
+/-- names that `_quote` changes: a root variable `t[0]` ahead of the group `g h`, which declares the dimension `x y`
+    and the variable `a.b` over it (stored as `/g%20h/a%2Eb`); `é` (two UTF-8 bytes) in a root variable -/
+def qdemo : Spec :=
+  .var ⟨"Int8".toList, "t[0]".toList, [], [], []⟩ <|
+  .group "g h".toList
+    (.dim "x y".toList 2 <|
+     .var ⟨"Int16".toList, "a.b".toList, [.named "/g h/x y".toList 2], [], []⟩ .nil) <|
+  .var ⟨"Int8".toList, ['\xc3', '\xa9'], [], [], []⟩ .nil
+
+example : expectVars qdemo =
+    [⟨"t[0]".toList, "t[0]".toList, none, ">i1".toList, [], [], [], []⟩,
+     ⟨"/g%20h/a.b".toList, "a.b".toList, some "/g%20h".toList, ">i2".toList, ["/g h/x y".toList], [2], [], []⟩,
+     ⟨['\xc3', '\xa9'], ['\xc3', '\xa9'], none, ">i1".toList, [], [], [], []⟩] := by decide
+
+theorem qdemo_ok : qdemo.ok := by
+  have h1 : goodName "t[0]".toList := ⟨by decide, by decide, by decide, by decide⟩
+  have h2 : goodName "g h".toList := ⟨by decide, by decide, by decide, by decide⟩
+  have h3 : goodName "a.b".toList := ⟨by decide, by decide, by decide, by decide⟩
+  have h4 : goodName ['\xc3', '\xa9'] := ⟨by decide, by decide, by decide, by decide⟩
+  have hd : segName "x y".toList := ⟨by decide, by decide⟩
+  exact ⟨⟨by decide, h1, by simp, by simp⟩, h2, ⟨hd, ⟨by decide, h3, by simp, by simp⟩, trivial⟩,
+    ⟨by decide, h4, by simp, by simp⟩, trivial⟩
+
+theorem qdemo_refs : refsResolve qdemo := by
+  intro pv hpv fq sz hm
+  simp only [qdemo, specVars, List.nil_append, List.mem_cons, List.append_nil, List.not_mem_nil, or_false,
+    List.cons_append] at hpv
+  rcases hpv with rfl | rfl | rfl
+  · cases hm
+  · simp only [List.mem_cons, List.not_mem_nil, or_false, SDim.named.injEq] at hm
+    obtain ⟨rfl, rfl⟩ := hm
+    exact ⟨(["g h".toList], "x y".toList, 2), by simp [qdemo, declDims], by decide, rfl⟩
+  · cases hm
 
 end Pydap.Dmr
